@@ -7,6 +7,9 @@
                       demanded by the count theorem (grid_count: the product of the field lengths,
                       computed here) followed by the order-independent digest of the expected
                       queries that the harness computed by enumerating the product itself.
+   stream `bindings`: S line = for a batch of queries submitted through CompassAppBindings::
+                      run_queries (grid_search enabled), the sorted multiset of the queries that
+                      must be answered: the concatenation of GS.spec of every query of the batch.
    stream `gridset` : S line = the specification (Cartesian product built directly, GS.spec)
                       as a SORTED list of canonical query texts, so that the comparison with the
                       implementation is a multiset comparison: "one for each combination and
@@ -90,4 +93,10 @@ Definition line_spec (id : Z) (chain : list rstage) (q : json) (out_keys : optio
                     | None => "unspecified"
                     | Some l => "Ok " ++ sorted_texts l
                     end).
+(* a batch through the bindings: one response per query of the concatenated expansions *)
+Definition line_spec_batch (id : Z) (qs : list json) : string :=
+  line "S" id (match GS.flat_map_opt GS.spec (map of_json qs) with
+               | None => "unspecified"
+               | Some l => "Ok n=" ++ show_nat (List.length l) ++ " " ++ sorted_texts l
+               end).
 End GSR.
